@@ -646,6 +646,11 @@ func oracleC07asa(c *Case) Verdict {
 				sig := "asa:protected-changed"
 				if strings.HasPrefix(k, "grp:") {
 					sig = "asa:F3-group-shared-with-unmanaged-object-edited-in-place"
+				} else if r.a.ManagedReach(sc)[k] {
+					// The ACL is bound at a managed interface (or used by a
+					// managed VPN anchor) and at the same time used by an
+					// object outside Netspoc's scope: same root cause.
+					sig = "asa:F3-acl-shared-with-unmanaged-object-edited-in-place"
 				}
 				return fail(sig, "step %d (%s) changes %s which is outside Netspoc's scope\n--- before\n%s--- after\n%s%s",
 					i+1, strings.Join(r.steps[i], " \\N "), k, before[k], txt, ctx())
